@@ -850,8 +850,9 @@ func (ps *PkgSpec) generate(trustedDir string) error {
 						gf.imports[a] = p
 					}
 				}
-				// imports requested by the contract file itself win only if the name is free
-				for a, p := range ps.Imports {
+				// imports requested by the contract file and by the trusted spec files it uses are
+				// available too, when the name is free in this source file
+				for a, p := range imports {
 					if _, ok := gf.imports[a]; !ok {
 						gf.imports[a] = p
 					}
